@@ -54,13 +54,25 @@ def started_after_cancel(out, hdr):
 
 
 def window_suspects_in(lines, out):
-    """True if some cancelled build of this trace completed a task whose discovered dependency was never looked at in it."""
+    """True if every stale build of this trace is explained by the known window: a task completed in an earlier cancelled build while one of its
+    discovered dependencies was never looked at in it, and in the stale build that discovered input is scanned and judged VALID without running
+    (it is back at the stamp of its stored result) while the completed task is not re-run."""
     builds = K.parse_impl(out)
+    window, stale, explained = [], 0, 0
     for b, rules, env, restarts in K.Scenario(lines).walk(builds):
         val, cancelled = K.result_value(b)
-        if (cancelled or any(x.startswith("cancel-sent") for x in b["other"])) and window_suspects(b, rules):
-            return True
-    return False
+        if cancelled or any(x.startswith("cancel-sent") for x in b["other"]):
+            window += window_suspects(b, rules)
+            continue
+        fresh_bad = b.get("fresh") is not None and val != b["fresh"]
+        input_bad = any(l.split(" ")[0] == "provide" and b.get("freshvals", {}).get(int(l.split(" ")[3])) not in (None, l.split(" ")[4]) for l in b["events"])
+        if fresh_bad or input_bad:
+            stale += 1
+            evs = set(b["events"])
+            created = set(int(l.split(" ")[1]) for l in b["events"] if l.startswith("create "))
+            if [1 for (k, d) in window if ("valid %d 1" % d) in evs and d not in created and k not in created]:
+                explained += 1
+    return stale > 0 and explained == stale
 
 
 def judge(chk, lines, out, origin, sess=None, tag=None):
@@ -104,7 +116,13 @@ def judge(chk, lines, out, origin, sess=None, tag=None):
             window += window_suspects(b, rules)
         else:
             if b.get("fresh") is not None and val != b["fresh"] and not any(x.startswith("cycle") for x in b["other"]):
-                key = "discovered-window" if (cancelled_seen and window) else ("stale-after-cancel" if cancelled_seen else "stale-result")
+                # the known window (KNOWN_FINDINGS discovered-window) needs the discovered input to be back at the stamp of its stored result:
+                # in THIS build it is then scanned and judged valid without running, and the completed task is not re-run.  A discovered
+                # input that is not even scanned (it is missing from the recorded dependencies) or that re-ran is a different failure.
+                evs = set(b["events"])
+                created_now = set(int(l.split(" ")[1]) for l in b["events"] if l.startswith("create "))
+                in_window = [(k, d) for (k, d) in window if ("valid %d 1" % d) in evs and d not in created_now and k not in created_now]
+                key = "discovered-window" if (cancelled_seen and in_window) else ("stale-after-cancel" if cancelled_seen else "stale-result")
                 bad.append((key, "build '%s' returned %s but a brand-new engine computes %s%s" % (
                     b["hdr"], val, b["fresh"], (" (tasks %s completed in a cancelled build before their discovered dependencies were brought up to date)" % window[:3]) if key == "discovered-window" else "")))
             for l in b["events"]:
@@ -112,7 +130,9 @@ def judge(chk, lines, out, origin, sess=None, tag=None):
                 if t[0] == "provide":
                     fv = b.get("freshvals", {}).get(int(t[3]))
                     if fv is not None and t[4] != fv:
-                        key = "discovered-window-input" if (cancelled_seen and window) else "stale-input-after-cancel"
+                        evs2 = set(b["events"])
+                        cr2 = set(int(l.split(" ")[1]) for l in b["events"] if l.startswith("create "))
+                        key = "discovered-window-input" if (cancelled_seen and [1 for (k, d) in window if ("valid %d 1" % d) in evs2 and d not in cr2 and k not in cr2]) else "stale-input-after-cancel"
                         bad.append((key, "in '%s' task %s was handed %s for input %s whose current value is %s" % (b["hdr"], t[1], t[4], t[3], fv)))
         if rows:
             prev_rows = rows
